@@ -176,6 +176,21 @@ Definition py_neg (a : pyval) : pyval := match a with PInt x => PInt (- x) | _ =
 Definition py_or (a b : pyval) : pyval := match a, b with PInt x, PInt y => PInt (Z.lor x y) | _, _ => PNone end.
 Definition py_invert (a : pyval) : pyval := match a with PInt x => PInt (Z.lnot x) | _ => PNone end.
 
+(* fields by computed name (CFG-GNSS helpers): f'prefix{i}', range(n), self.f.get(name) -> the item (an object with .value),
+   self.f._fields[name].<method>() writes the item's value back *)
+Fixpoint attr_find (l : list (string * pyval)) (name : string) : option pyval :=
+  match l with [] => None | (k, v) :: t => if String.eqb k name then Some v else attr_find t name end.
+Definition py_fld_item (f name : pyval) : res pyval :=
+  match f, name with
+  | PObj l, PStr n => match attr_find l n with Some v => Ok (PObj [("value"%string, v)]) | None => Raise KeyError end
+  | _, _ => Raise TypeError
+  end.
+Definition py_fld_set_v (f name v : pyval) : pyval := match name with PStr n => py_fld_set f n v | _ => f end.
+Definition py_fstr (prefix : string) (v : pyval) : pyval :=
+  match v with PInt z => if (z <? 0)%Z then PNone else PStr (prefix ++ dec (Z.to_nat z)) | _ => PNone end.
+Definition py_range (v : pyval) : pyval :=
+  match v with PInt z => PList (map (fun k => PInt (Z.of_nat k)) (seq 0 (Z.to_nat z))) | _ => PNone end.
+
 (* Fields objects and freshly constructed items (VALGET response) *)
 Definition py_new_fields : pyval := PObj [("items"%string, PList [])].
 Definition py_fields_add (f x : pyval) : pyval :=
